@@ -125,6 +125,7 @@ fn c06_case<T: Elem>(ctx: &mut Ctx, shape: (usize, usize), cap: CapClass, axis: 
                     let res = catches(|| do_insert(&mut a, axis, push, idx, items, ik));
                     ctx.count("calls", 1);
                     let what = format!("{}(idx={}, len={}) on {}x{} {:?} iter#{} {}", opname, idx, len, cols, rows, cap, ik, T::NAME);
+                    ctx.detail(|| format!("{} -> model says {}", what, if verdict.is_ok() { "accept" } else { "reject" }));
                     match (verdict, res) {
                         (Ok(()), Ok(())) => {
                             ctx.count("accepted", 1);
@@ -491,6 +492,7 @@ fn c07_case<T: Elem>(ctx: &mut Ctx, shape: (usize, usize), axis: Axis, cap: CapC
                             ok
                         });
                         ctx.count("calls", 1);
+                        ctx.detail(|| format!("{}({}) on {}x{} {:?} {}: drain driven with front={} back={} mode-code={} then dropped", opname, idx, cols, rows, cap, T::NAME, front, back, inter));
                         match res {
                             Err(msg) => {
                                 ctx.violation(opname, "valid-call-panicked", format!("{}({}) on {}x{} front={} back={} inter={} {}: {}", opname, idx, cols, rows, front, back, inter, T::NAME, msg));
